@@ -20,8 +20,8 @@ from .report import Check
 C, H, K, A, CA, F = "curves", "heavy", "knotspace", "advanced", "calculus", "functions"
 
 
-def V(id, props, module, old, new, rule, func, what, twin=False):
-    return dict(id=id, props=props, module=module, old=old, new=new, rule=rule, func=func, what=what, twin=twin)
+def V(id, props, module, old, new, rule, func, what, twin=False, near=None):
+    return dict(id=id, props=props, module=module, old=old, new=new, rule=rule, func=func, what=what, twin=twin, near=near)
 
 
 VARIANTS = [
@@ -71,7 +71,7 @@ VARIANTS = [
     V("func-eval-wrong-degree", ["C02"], F, "        evaluator = self[:, self.degree]", "        evaluator = self[:, 0]", "DEP-MAY", "IndexableFunction.eval", "f(u) evaluated at degree 0"),
     V("derivate-mutates", ["C09", "C15"], CA, "        dnumer = Derivate.nonrational_spline(numer)\n        dnumer.degree_increase(1)  # Shouldn't be necessary", "        curve.degree_increase(1)\n        dnumer = Derivate.nonrational_spline(numer)\n        dnumer.degree_increase(1)  # Shouldn't be necessary", "PURE", "rational_spline", "Derivate elevates its argument"),
     V("derivate-fallthrough", ["C09"], CA, "        if curve.weights is None:\n            return Derivate.nonrational_bezier(curve)\n        return Derivate.rational_bezier(curve)", "        if curve.weights is None:\n            return Derivate.nonrational_bezier(curve)\n        if len(curve.weights) > 0:\n            return Derivate.rational_bezier(curve)", "EXHAUSTIVE", "Derivate.bezier", "dispatch falls through"),
-    V("split-drop-weights", ["C07"], C, "            if self.weights is not None:\n                newcurve.weights = np.dot(matrix, self.weights)\n            newcurves.append(newcurve)", "            newcurves.append(newcurve)", "DEP-MUST", "Curve.split", "pieces lose their weights"),
+    V("split-drop-weights", ["C07"], C, "                newcurve.weights = newweights\n                newcurve.ctrlpoints = [\n                    num / w for num, w in zip(numerators, newweights)\n                ]\n", "                newcurve.ctrlpoints = [\n                    num / w for num, w in zip(numerators, newweights)\n                ]\n", "DEP-MUST", "Curve.split", "pieces lose their weights"),
     V("fitpoints-no-count", ["C12"], C, "        assert len(points) >= self.npts\n        fitfunc = heavy.LeastSquare.fit_function", "        fitfunc = heavy.LeastSquare.fit_function", "GATE-COUNT", "fit_points", "count check removed"),
     V("fitfunction-other-nodes", ["C12"], C, "        nodes = tuple(nodes)\n        funcvals = [function(node) for node in nodes]\n        return self.fit_points(funcvals, nodes)", "        nodes = tuple(nodes)\n        funcvals = [function(node) for node in nodes]\n        nodes = tuple(sorted(nodes, reverse=True))\n        return self.fit_points(funcvals, nodes)", "SAME-NODES", "fit_function", "nodes rebound between sampling and fitting"),
     V("degree-setter-swapped", ["C06"], C, "        if times > 0:\n            return self.degree_increase(times)\n        return self.degree_decrease(-times)", "        if times > 0:\n            return self.degree_increase(times)\n        return self.degree_decrease(times)", "DISPATCH", "degree.setter", "reduction called with a negative count"),
@@ -116,16 +116,70 @@ VARIANTS += [
 ]
 
 
+# ---- third batch: faults / twins for the rules added after the second round of independently seeded changes
+VARIANTS += [
+    V("eval-len-select", ["C01"], C, "        return result[0] if onevalue else result", "        return result[0] if len(result) == 1 else result", "FORM-SELECT", "Curve.eval", "shape decided by the length of the result"),
+    V("twin-eval-flag-first", ["C01"], C, "        try:\n            nodes = tuple(nodes)\n            onevalue = False\n        except TypeError:\n            nodes = (nodes,)\n            onevalue = True\n        self.knotvector.valid(nodes)\n        result = self.__eval(nodes)\n        return result[0] if onevalue else result",
+      "        onevalue = True\n        try:\n            nodes = tuple(nodes)\n            onevalue = False\n        except TypeError:\n            nodes = (nodes,)\n        self.knotvector.valid(nodes)\n        result = self.__eval(nodes)\n        if onevalue:\n            return result[0]\n        return result", None, None, "flag initialised before the probe, if-statement instead of conditional expression", twin=True),
+    V("eq-squared-tol", ["C13"], C, "            if norm(poi - qoi) > 1e-9:", "            if norm(poi - qoi) ** 2 > 1e-9:", "TOL-HOMOG", "__eq__", "squared distance against the linear tolerance"),
+    V("twin-eq-squared-tol", ["C13"], C, "            if norm(poi - qoi) > 1e-9:", "            if norm(poi - qoi) ** 2 > 1e-18:", None, None, "squared distance against the squared tolerance", twin=True),
+    V("rmatmul-right", ["C08"], C, "        copied.ctrlpoints = [other @ point for point in copied.ctrlpoints]", "        copied.ctrlpoints = [point @ other for point in copied.ctrlpoints]", "REFLECTED", "__rmatmul__", "left operand applied from the right"),
+    V("rsub-direct", ["C08"], C, "    def __rsub__(self, other: object):\n        return other + (-self)", "    def __rsub__(self, other: object):\n        return self - other", "REFLECTED", "__rsub__", "x - A computed as A - x"),
+    V("twin-rsub-neg", ["C08"], C, "    def __rsub__(self, other: object):\n        return other + (-self)", "    def __rsub__(self, other: object):\n        return -(self - other)", None, None, "x - A as -(A - x)", twin=True),
+    V("twin-ikv-or-both-ways", ["C17"], H, "        other = ImmutableKnotVector(other)\n        if self.limits != other.limits:\n            raise ValueError\n        all_knots = list(self.knots) + list(other.knots)", "        other = ImmutableKnotVector(other)\n        if not (self.valid(other.limits) and other.valid(self.limits)):\n            raise ValueError\n        all_knots = list(self.knots) + list(other.knots)", None, None, "containment both ways is equality of the intervals", twin=True),
+    V("ikv-and-contain", ["C17"], H, "    def __and__(self, other: ImmutableKnotVector) -> ImmutableKnotVector:\n        other = ImmutableKnotVector(other)\n        if self.limits != other.limits:", "    def __and__(self, other: ImmutableKnotVector) -> ImmutableKnotVector:\n        other = ImmutableKnotVector(other)\n        if not other.valid(self.limits):", "SAME-INTERVAL", "__and__", "one-sided containment"),
+    V("scalar-default-closed", ["C10"], CA, "        elif isinstance(curve.knotvector[0], (int, Fraction)):\n            method = \"open-newton-cotes\"\n        else:\n            method = \"chebyshev\"\n        if nnodes is None:\n            nnodes = 1 + curve.degree\n        nodes_func = nodes_functs[method]\n        integ_array_func = array_functs[method]\n        nodes_0to1 = nodes_func(nnodes)\n        integ_array = integ_array_func(nnodes)\n        knots = curve.knotvector.knots\n        integrals = []",
+      "        elif isinstance(curve.knotvector[0], (int, Fraction)):\n            method = \"closed-newton-cotes\"\n        else:\n            method = \"chebyshev\"\n        if nnodes is None:\n            nnodes = 2 + curve.degree\n        nodes_func = nodes_functs[method]\n        integ_array_func = array_functs[method]\n        nodes_0to1 = nodes_func(nnodes)\n        integ_array = integ_array_func(nnodes)\n        knots = curve.knotvector.knots\n        integrals = []", "DEFAULT-OPEN", "Integrate.scalar", "closed default rule", near=157),
+    V("weight-cast-each", ["C18"], K, "            listknots[i + 1] = listknots[i] + weight", "            listknots[i + 1] = listknots[i] + cls(weight)", "SIBLING-CAST", "GeneratorKnotVector.weight", "each weight converted to the class of the first"),
+    V("twin-weight-zero", ["C18"], K, "        listknots = [cls(0) for i in range(1 + len(weights))]", "        zero = cls(0)\n        listknots = [zero] * (1 + len(weights))", None, None, "zero of the first weight's class built once", twin=True),
+    V("twin-feval-inline", ["C02"], F, "        evaluator = self[:, self.degree]\n        return evaluator(nodes)", "        return self[:, self.degree](nodes)", None, None, "evaluator applied without a local name", twin=True),
+    V("insert-filter-ends", ["C04"], C, "        nodes = tuple(nodes)\n        oldvector = tuple(self.knotvector)\n        newvector = tuple(self.knotvector + nodes)", "        nodes = tuple(node for node in nodes if node not in self.knotvector.limits)\n        oldvector = tuple(self.knotvector)\n        newvector = tuple(self.knotvector + nodes)", "MULT-KEEP", "Curve.knot_insert", "end knots dropped from the request before the knot vector can refuse them"),
+    V("twin-insert-filter-after", ["C04"], C, "        matrix = heavy.Operations.knot_insert(oldvector, nodes)\n        self.apply(newvector, matrix)\n\n    def knot_remove", "        inner = tuple(node for node in nodes if node not in self.knotvector.limits)\n        matrix = heavy.Operations.knot_insert(oldvector, inner)\n        self.apply(newvector, matrix)\n\n    def knot_remove", None, None, "filter applied after the knot vector accepted the whole request", twin=True),
+]
+
+
+VARIANTS += [
+    V("rev-F16", ["C07"], C, "            if self.weights is None:\n                newcurve.ctrlpoints = np.dot(matrix, self.ctrlpoints)\n            else:\n                numerators = [w * pt for w, pt in zip(self.weights, self.ctrlpoints)]\n                numerators = np.dot(matrix, numerators)\n                newweights = np.dot(matrix, self.weights)\n                newcurve.weights = newweights\n                newcurve.ctrlpoints = [\n                    num / w for num, w in zip(numerators, newweights)\n                ]\n",
+      "            newcurve.ctrlpoints = np.dot(matrix, self.ctrlpoints)\n            if self.weights is not None:\n                newcurve.weights = np.dot(matrix, self.weights)\n", "DEP-MAY", "Curve.split", "pieces of a rational curve built from the unweighted control points"),
+    V("rev-F17", ["C07"], C, "        newctrlpoints = list(selfcopy.ctrlpoints) + list(othercopy.ctrlpoints)\n", "        newctrlpoints = list(selfcopy.ctrlpoints) + list(othercopy.ctrlpoints[1:])\n", "ELEM-COVER", "__or__", "first control point of the right operand dropped"),
+    V("rev-F11", ["C07"], C, "        weights0, weights1 = selfcopy.weights, othercopy.weights\n        if weights0 is not None or weights1 is not None:", "        weights0, weights1 = None, None\n        if weights0 is not None or weights1 is not None:", "DEP-MUST", "__or__", "weights of the operands never read"),
+    V("twin-or-extend", ["C07"], C, "        newctrlpoints = list(selfcopy.ctrlpoints) + list(othercopy.ctrlpoints)\n", "        newctrlpoints = list(selfcopy.ctrlpoints)\n        newctrlpoints.extend(othercopy.ctrlpoints)\n", None, None, "joined points assembled with extend", twin=True),
+]
+
+
+VARIANTS += [
+    V("twin-f18-repaired", ["C11", "C10"], H, "            for k, integ in enumerate(integrator):\n                FF += integ *", "            for k, integ in enumerate(integrator):\n                integ = (end - start) * integ\n                FF += integ *", None, None, "span sums of func2func multiplied by the span length (the repair of F18 that was tried)", twin=True),
+    V("scalar-no-length", ["C10"], CA, "            integrals.append((end - start) * new_integral)\n        return sum(integrals)", "            integrals.append(new_integral)\n        return sum(integrals)", "JACOBIAN", "Integrate.scalar", "span length dropped from Integrate.scalar", near=176),
+    V("rev-F19", ["C04", "C15"], C, "        if len(matrix) != newknotvector.npts:\n            error_msg = f\"The matrix gives {len(matrix)} control points, \"\n            error_msg += f\"the knot vector needs {newknotvector.npts}\"\n            raise ValueError(error_msg)\n", "", "PRECHECK-LEN", "BaseCurve.apply", "compatibility pre-check of apply removed"),
+]
+
+
 def _sources(src_dir: str, v: dict) -> Optional[dict]:
     edits = v.get("edits") or [(v["module"], v["old"], v["new"])]
     out: Dict[str, str] = {}
-    for module, old, new in edits:
+    for ed in edits:
+        module, old, new = ed[:3]
+        hint = ed[3] if len(ed) > 3 else v.get("near")
         if module not in out:
             with open(os.path.join(src_dir, module + ".py"), encoding="utf-8") as fh:
                 out[module] = fh.read()
-        if out[module].count(old) != 1:
+        text = out[module]
+        cnt = text.count(old)
+        if cnt == 0 or (cnt > 1 and hint is None):
             return None
-        out[module] = out[module].replace(old, new)
+        if cnt == 1:
+            pos = text.index(old)
+        else:
+            # several identical fragments (e.g. the same hunk in three sibling functions): take the one nearest to the hinted line
+            cands, start = [], 0
+            while True:
+                i = text.find(old, start)
+                if i < 0:
+                    break
+                cands.append(i)
+                start = i + 1
+            pos = min(cands, key=lambda i: abs(text.count("\n", 0, i) + 1 - hint))
+        out[module] = text[:pos] + new + text[pos + len(old):]
     return out
 
 
@@ -136,9 +190,11 @@ def _hunks(diff_text: str):
     old: List[str] = []
     new: List[str] = []
 
+    hint = [None]
+
     def flush():
         if module and (old or new) and old != new:
-            out.append((module, "".join(old), "".join(new)))
+            out.append((module, "".join(old), "".join(new), hint[0]))
 
     for line in diff_text.splitlines(keepends=True):
         if line.startswith("+++ "):
@@ -151,6 +207,10 @@ def _hunks(diff_text: str):
         elif line.startswith("@@"):
             flush()
             old, new = [], []
+            try:
+                hint[0] = int(line.split()[1].lstrip("-").split(",")[0])
+            except (ValueError, IndexError):
+                hint[0] = None
         elif line.startswith("-"):
             old.append(line[1:])
         elif line.startswith("+"):
